@@ -64,6 +64,9 @@ def make_obj(rng, ndim, chunked, dataset, kind="coord1d"):
         others = [d for d in names if d not in gdims_all]
         v2 = xr.DataArray(np.arange(sizes[gdim], dtype=float) - 1, dims=[gdim], attrs={"a": 2})
         ds = xr.Dataset({"v": da, "u": v2}, attrs={"title": "t"})
+        if rng.random() < 0.7:
+            # an INTEGER variable next to the float one: the NaN-skipping default (skipna=None) is decided per variable
+            ds["i"] = xr.DataArray((np.nan_to_num(vals) * 2).astype("int64"), dims=names, attrs={"units": "1"})
         if others and rng.random() < 0.6:   # a variable lacking the grouped dimension passes through
             ds["p"] = xr.DataArray(np.arange(sizes[others[0]], dtype=float), dims=[others[0]])
         obj = ds
